@@ -986,17 +986,25 @@ fn smooth_romberg(rng: &mut Rng, rep: &mut Report, cat: &[Smooth], max_levels: u
     let fp = s.f;
     let f = |t: f64| fp(t);
     let (i0, iallow) = smooth_integral(s, a, b);
-    let scale = i0.abs().max(1.0);
-    let p = Probe::new();
-    let got = guard(|| romberg(|t| p.hit(f(t)), a, b, tau, nmax));
     let desc = json!({"f": s.name, "eps": tau, "nmax": nmax});
     rep.seen(&format!("romberg:nmax={}", nmax), 1);
     rep.seen(&format!("romberg:tau=1e{}", tau.log10().round() as i32), 1);
     rep.distinct(Hasher::new().s("sr").s(s.name).u(nmax as u64).f(tau).f(a).f(b).finish(), true);
+    judge_romberg(rep, &f, a, b, tau, nmax, i0, iallow, desc, "romberg:smooth");
+}
+
+/// Romberg with a requested tolerance `tau` and level budget `nmax` on an integrand with known integral `i0`
+/// (rounding allowance `iallow`): the tolerance-order bound is asserted when the exact-arithmetic method
+/// (reference tableau in double-double) converges within the budget and its criterion is not fooled.
+/// Regimes `<family>:budget-suffices`, `<family>:criterion-fooled`, `<family>:undecided(...)`.
+fn judge_romberg(rep: &mut Report, f: &dyn Fn(f64) -> f64, a: f64, b: f64, tau: f64, nmax: usize, i0: f64, iallow: f64, desc: Value, family: &str) {
+    let scale = i0.abs().max(1.0);
+    let p = Probe::new();
+    let got = guard(|| romberg(|t| p.hit(f(t)), a, b, tau, nmax));
     let q = match got {
         Err(msg) => {
-            rep.case("romberg:smooth:panic");
-            rep.check("C07.romberg.no_panic", "romberg:smooth", false, || json!({"integrand": desc.clone(), "a": a, "b": b, "panic": msg}));
+            rep.case(&format!("{}:panic", family));
+            rep.check("C07.romberg.no_panic", family, false, || json!({"integrand": desc.clone(), "a": a, "b": b, "panic": msg}));
             return;
         }
         Ok(q) => q,
@@ -1006,7 +1014,7 @@ fn smooth_romberg(rng: &mut Rng, rep: &mut Report, cat: &[Smooth], max_levels: u
     // rounding noise of a level-n diagonal entry (2^n + 1 integrand values enter it)
     let noise = |n: usize| 32.0 * gamma_n((1usize << n) + 5) * w * m0 + iallow;
     // what could the exact-arithmetic method have done within this level budget?
-    let mut tab = RefTab::new(&f, a, b);
+    let mut tab = RefTab::new(f, a, b);
     let mut candidates: Vec<usize> = Vec::new();
     let mut sure: Option<usize> = None;
     for n in 2..nmax {
@@ -1024,25 +1032,25 @@ fn smooth_romberg(rng: &mut Rng, rep: &mut Report, cat: &[Smooth], max_levels: u
     let regime;
     match sure {
         None => {
-            regime = "romberg:smooth:undecided(budget-short-or-rounding-limited)";
-            rep.case(regime);
+            regime = format!("{}:undecided(budget-short-or-rounding-limited)", family);
+            rep.case(&regime);
             // nothing is promised when the budget runs out; the value must at least be finite
-            rep.check("C07.romberg.finite", regime, q.is_finite(), || json!({"integrand": desc.clone(), "a": a, "b": b, "observed": jnum(q)}));
+            rep.check("C07.romberg.finite", &regime, q.is_finite(), || json!({"integrand": desc.clone(), "a": a, "b": b, "observed": jnum(q)}));
         }
         Some(ns) => {
             let genuine = candidates.iter().all(|&m| (tab.diag(m) - i0).abs() <= 10.0 * tau * scale + noise(m));
             if !genuine {
-                regime = "romberg:smooth:criterion-fooled";
-                rep.case(regime);
-                rep.check("C07.romberg.finite", regime, q.is_finite(), || json!({"integrand": desc.clone(), "a": a, "b": b, "observed": jnum(q)}));
+                regime = format!("{}:criterion-fooled", family);
+                rep.case(&regime);
+                rep.check("C07.romberg.finite", &regime, q.is_finite(), || json!({"integrand": desc.clone(), "a": a, "b": b, "observed": jnum(q)}));
             } else {
-                regime = "romberg:smooth:budget-suffices";
-                rep.case(regime);
+                regime = format!("{}:budget-suffices", family);
+                rep.case(&regime);
                 let tol = 100.0 * tau * scale + noise(ns);
                 let err = (q - i0).abs();
                 rep.note_max("worst_ratio.romberg_tolerance_order", if err.is_nan() { f64::INFINITY } else { err / tol });
                 rep.note_max("worst_err_over_tau.romberg", if err.is_nan() { f64::INFINITY } else { (err - noise(ns)).max(0.0) / (tau * scale) });
-                rep.check("C07.romberg.tolerance_order", regime, err <= tol, || {
+                rep.check("C07.romberg.tolerance_order", &regime, err <= tol, || {
                     json!({"integrand": desc.clone(), "a": a, "b": b, "observed": jnum(q), "integral": i0, "abs_err": jnum(err), "tol": tol, "reference_stop_levels": candidates.clone(), "evaluations": p.n.get()})
                 });
             }
@@ -1114,13 +1122,498 @@ fn samples(rng: &mut Rng, rep: &mut Report, maxlen: usize) {
     }
 }
 
+// ---------------------------------------------------------------------------------------------
+// periodic integrands over whole and half periods (tolerance-driven Romberg)
+//
+// A T-periodic integrand integrated over a whole number of periods takes one value at a, at b and — from
+// two periods on, or when only even harmonics are present — at the midpoint; the coarsest estimates of the
+// tableau then coincide although they are far from the integral. Closed antiderivatives are exact for any
+// limits, so the family also walks half periods and arbitrary phases.
+
+struct Periodic {
+    name: String,
+    f: Box<dyn Fn(f64) -> f64>,
+    /// antiderivative: (value, Σ|terms|)
+    af: Box<dyn Fn(f64) -> (f64, f64)>,
+    /// base period T = 2π/ω
+    period: f64,
+}
+
+fn periodic_integrand(rng: &mut Rng) -> Periodic {
+    // base angular frequency: period 2π, 1, 2, or a random period in 0.5..8
+    let (w, wname) = match rng.usize(0, 4) {
+        0 | 1 => (1.0, "x".to_string()),
+        2 => (2.0 * PI, "2πx".to_string()),
+        3 => (PI, "πx".to_string()),
+        _ => {
+            let t = rng.log_range(0.5, 8.0);
+            (2.0 * PI / t, format!("2πx/{}", t))
+        }
+    };
+    let period = 2.0 * PI / w;
+    let m = rng.usize(1, 3) as f64;
+    let n = {
+        let n = rng.usize(1, 4) as f64;
+        if n == m {
+            n + 1.0
+        } else {
+            n
+        }
+    };
+    let (f, af, name): (Box<dyn Fn(f64) -> f64>, Box<dyn Fn(f64) -> (f64, f64)>, String) = match rng.usize(0, 7) {
+        0 => (Box::new(move |x: f64| (m * w * x).sin().powi(2)), Box::new(move |x: f64| (0.5 * x - (2.0 * m * w * x).sin() / (4.0 * m * w), 0.5 * x.abs() + 0.25 / (m * w))), format!("sin^2({}·{})", m, wname)),
+        1 => (Box::new(move |x: f64| (m * w * x).cos().powi(2)), Box::new(move |x: f64| (0.5 * x + (2.0 * m * w * x).sin() / (4.0 * m * w), 0.5 * x.abs() + 0.25 / (m * w))), format!("cos^2({}·{})", m, wname)),
+        2 => (
+            Box::new(move |x: f64| (m * w * x).sin() * (n * w * x).sin()),
+            Box::new(move |x: f64| (((m - n) * w * x).sin() / (2.0 * (m - n) * w) - ((m + n) * w * x).sin() / (2.0 * (m + n) * w), 1.0 / (2.0 * (m - n).abs() * w) + 1.0 / (2.0 * (m + n) * w))),
+            format!("sin({}·{})·sin({}·{})", m, wname, n, wname),
+        ),
+        3 => (
+            Box::new(move |x: f64| (m * w * x).cos() * (n * w * x).cos()),
+            Box::new(move |x: f64| (((m - n) * w * x).sin() / (2.0 * (m - n) * w) + ((m + n) * w * x).sin() / (2.0 * (m + n) * w), 1.0 / (2.0 * (m - n).abs() * w) + 1.0 / (2.0 * (m + n) * w))),
+            format!("cos({}·{})·cos({}·{})", m, wname, n, wname),
+        ),
+        4 => (
+            Box::new(move |x: f64| (m * w * x).sin() * (n * w * x).cos()),
+            Box::new(move |x: f64| (-((m + n) * w * x).cos() / (2.0 * (m + n) * w) - ((m - n) * w * x).cos() / (2.0 * (m - n) * w), 1.0 / (2.0 * (m - n).abs() * w) + 1.0 / (2.0 * (m + n) * w))),
+            format!("sin({}·{})·cos({}·{})", m, wname, n, wname),
+        ),
+        5 => {
+            let (c0, amp, ph) = (rng.int(-3, 3) as f64, rng.range(0.2, 3.0), rng.range(-PI, PI));
+            (Box::new(move |x: f64| c0 + amp * (m * w * x + ph).cos()), Box::new(move |x: f64| (c0 * x + amp * (m * w * x + ph).sin() / (m * w), (c0 * x).abs() + amp / (m * w))), format!("{} + {}·cos({}·{} + {})", c0, amp, m, wname, ph))
+        }
+        _ => {
+            // random trigonometric polynomial c0 + Σ a_j cos(jωx) + b_j sin(jωx), j = 1..4; one time in two even harmonics only
+            let even_only = rng.bool();
+            let c0 = rng.normal();
+            let terms: Vec<(f64, f64, f64)> = (1..=4)
+                .filter(|j| !(even_only && j % 2 == 1))
+                .map(|j| (j as f64, if rng.chance(0.6) { rng.normal() } else { 0.0 }, if rng.chance(0.6) { rng.normal() } else { 0.0 }))
+                .collect();
+            let t2 = terms.clone();
+            let name = format!("trig-poly(ω·x = {}): c0 = {}, (j, a_j, b_j) = {:?}", wname, c0, terms);
+            (
+                Box::new(move |x: f64| terms.iter().fold(c0, |s, &(j, aj, bj)| s + aj * (j * w * x).cos() + bj * (j * w * x).sin())),
+                Box::new(move |x: f64| t2.iter().fold((c0 * x, (c0 * x).abs()), |(s, sa), &(j, aj, bj)| (s + (aj * (j * w * x).sin() - bj * (j * w * x).cos()) / (j * w), sa + (aj.abs() + bj.abs()) / (j * w)))),
+                name,
+            )
+        }
+    };
+    Periodic { name, f, af, period }
+}
+
+fn periodic_romberg(rng: &mut Rng, rep: &mut Report, max_levels: usize) {
+    let pf = periodic_integrand(rng);
+    let t = pf.period;
+    // q half periods: [0, qT/2], [−qT/4, qT/4] (symmetric), or starting at any phase; either orientation
+    let q = *rng.choose(&[1usize, 2, 2, 2, 3, 4, 4]);
+    let len = q as f64 * t / 2.0;
+    let (mut a, mut b) = match rng.usize(0, 3) {
+        0 => (0.0, len),
+        1 => (-0.5 * len, 0.5 * len),
+        _ => {
+            let s = rng.range(-t, t);
+            (s, s + len)
+        }
+    };
+    if rng.chance(0.3) {
+        std::mem::swap(&mut a, &mut b);
+    }
+    orient(rep, a, b);
+    let nmax = rng.usize(8.min(max_levels), 14.min(max_levels));
+    let tau = 10f64.powi(-(rng.usize(3, 12) as i32));
+    let f = |x: f64| (pf.f)(x);
+    let (fa, sa) = (pf.af)(a);
+    let (fb, sb) = (pf.af)(b);
+    // the limits are rounded multiples of the period: the closed form is evaluated at the rounded limits,
+    // its own rounding is 16u·Σ|terms| (argument reduction of sin/cos at |ωx| <= 60 is exact to < 1 ulp)
+    let (i0, iallow) = (Dd::sum2(fb, -fa).f(), 16.0 * U * (sa + sb) + 64.0 * U * (b - a).abs());
+    let family = if q % 2 == 0 { "romberg:periodic:whole-periods" } else { "romberg:periodic:half-periods" };
+    // do the two coarsest estimates (one trapezoid, Simpson on three points) agree although the integrand is not affine?
+    let mid = a + 0.5 * (b - a);
+    let (r00, r11) = ((b - a) / 2.0 * (f(a) + f(b)), (b - a) / 6.0 * (f(a) + 4.0 * f(mid) + f(b)));
+    if stop_crit(r11, r00, tau) {
+        rep.seen("romberg:periodic:two-coarsest-estimates-agree", 1);
+        if (r11 - i0).abs() > 1e3 * tau * i0.abs().max(1.0) {
+            rep.seen("romberg:periodic:two-coarsest-estimates-agree-and-are-wrong", 1);
+        }
+    }
+    rep.distinct(Hasher::new().s("pr").s(&pf.name).u(nmax as u64).f(tau).f(a).f(b).finish(), true);
+    let desc = json!({"f": pf.name, "eps": tau, "nmax": nmax, "half_periods": q});
+    judge_romberg(rep, &f, a, b, tau, nmax, i0, iallow, desc, family);
+}
+
+/// catalogue entries with a domain symmetric about 0 over exactly symmetric intervals [−c, c]
+fn symmetric_romberg(rng: &mut Rng, rep: &mut Report, cat: &[Smooth], max_levels: usize) {
+    let sym: Vec<&Smooth> = cat.iter().filter(|s| s.dom.0 == -s.dom.1).collect();
+    let s = *rng.choose(&sym);
+    let c = 0.5 * rng.log_range(0.05, s.rlen.min(2.0 * s.dom.1));
+    let (a, b) = if rng.chance(0.3) { (c, -c) } else { (-c, c) };
+    orient(rep, a, b);
+    let nmax = rng.usize(2, 14.min(max_levels));
+    let tau = 10f64.powi(-(rng.usize(3, 12) as i32));
+    let fp = s.f;
+    let f = |t: f64| fp(t);
+    let (i0, iallow) = smooth_integral(s, a, b);
+    rep.distinct(Hasher::new().s("sym").s(s.name).u(nmax as u64).f(tau).f(a).finish(), true);
+    judge_romberg(rep, &f, a, b, tau, nmax, i0, iallow, json!({"f": s.name, "eps": tau, "nmax": nmax}), "romberg:symmetric-interval");
+}
+
+// ---------------------------------------------------------------------------------------------
+// re-entrancy: integrands that are themselves computed by a quadrature rule (iterated integrals)
+
+#[derive(Clone, Copy, Debug)]
+struct NRule {
+    rule: Rule,
+    /// Romberg's tolerance (ignored by the other rules)
+    eps: f64,
+}
+impl NRule {
+    /// not guarded: inner calls run inside the guarded outer call
+    fn call(self, f: &dyn Fn(f64) -> f64, a: f64, b: f64) -> f64 {
+        match self.rule {
+            Rule::Trapz(n) => trapz(f, a, b, n),
+            Rule::Romberg(k) => romberg(f, a, b, self.eps, k),
+            Rule::Quad5 => quad5(f, a, b),
+        }
+    }
+    fn js(self) -> Value {
+        match self.rule {
+            Rule::Romberg(k) => json!({"romberg_eps": self.eps, "romberg_nmax": k}),
+            r => r.js(),
+        }
+    }
+    /// highest degree integrated exactly (eps = 0), capped at 9
+    fn class_degree(self) -> usize {
+        match self.rule {
+            Rule::Trapz(_) => 1,
+            Rule::Romberg(k) => (2 * k - 1).min(9),
+            Rule::Quad5 => 9,
+        }
+    }
+}
+fn nested_rule(rng: &mut Rng, which: usize, exact: bool, kmax: usize) -> NRule {
+    match which {
+        0 => NRule { rule: Rule::Trapz(if rng.bool() { rng.usize(1, 8) } else { rng.usize(9, 64) }), eps: 0.0 },
+        1 => {
+            let k = if rng.chance(0.8) { rng.usize(2, kmax.min(6)) } else { rng.usize(2, kmax) };
+            NRule { rule: Rule::Romberg(k), eps: if exact || rng.chance(0.4) { 0.0 } else { *rng.choose(&[1e-3, 1e-6, 1e-9, 1e-12]) } }
+        }
+        _ => NRule { rule: Rule::Quad5, eps: 0.0 },
+    }
+}
+
+/// p(x, y) = Σ c[i][j] x^i y^j
+struct BiPoly {
+    c: Vec<Vec<f64>>,
+}
+impl BiPoly {
+    fn random(rng: &mut Rng, dx: usize, dy: usize) -> BiPoly {
+        let ints = rng.chance(0.4);
+        let mut c: Vec<Vec<f64>> = (0..=dx).map(|_| (0..=dy).map(|_| if ints { rng.int(-5, 5) as f64 } else { rng.normal() }).collect()).collect();
+        if c[dx][dy] == 0.0 {
+            c[dx][dy] = 1.0;
+        }
+        BiPoly { c }
+    }
+    fn eval(&self, x: f64, y: f64) -> f64 {
+        let mut s = 0.0;
+        for row in self.c.iter().rev() {
+            let mut r = 0.0;
+            for &v in row.iter().rev() {
+                r = r * y + v;
+            }
+            s = s * x + r;
+        }
+        s
+    }
+    fn absval(&self, x: f64, y: f64) -> f64 {
+        let mut s = 0.0;
+        for row in self.c.iter().rev() {
+            let mut r = 0.0;
+            for &v in row.iter().rev() {
+                r = r * y.abs() + v.abs();
+            }
+            s = s * x.abs() + r;
+        }
+        s
+    }
+    /// exact ∫_a^b ∫_{l0}^{u0 + u1·x} p(x, y) dy dx in double-double
+    fn iterated_integral(&self, a: f64, b: f64, l0: f64, u0: f64, u1: f64) -> Dd {
+        let (dx, dy) = (self.c.len() - 1, self.c[0].len() - 1);
+        // g(x) = Σ_ij c_ij/(j+1) · x^i · (U(x)^{j+1} − l0^{j+1}), coefficients in x
+        let mut g = vec![Dd::ZERO; dx + dy + 2];
+        let mut up = vec![Dd::ONE];
+        let mut lp = Dd::ONE;
+        for j in 0..=dy {
+            // U^{j+1} = U^j·(u0 + u1·x)
+            let mut nx = vec![Dd::ZERO; up.len() + 1];
+            for (m, &c) in up.iter().enumerate() {
+                nx[m] = nx[m] + c * Dd::new(u0);
+                nx[m + 1] = nx[m + 1] + c * Dd::new(u1);
+            }
+            up = nx;
+            lp = lp * Dd::new(l0);
+            for i in 0..=dx {
+                let cij = self.c[i][j];
+                if cij == 0.0 {
+                    continue;
+                }
+                let s = Dd::new(cij) / Dd::new(j as f64 + 1.0);
+                for (m, &um) in up.iter().enumerate() {
+                    g[i + m] = g[i + m] + s * um;
+                }
+                g[i] = g[i] - s * lp;
+            }
+        }
+        let (da, db) = (Dd::new(a), Dd::new(b));
+        let (mut pa, mut pb) = (da, db);
+        let mut s = Dd::ZERO;
+        for (m, &c) in g.iter().enumerate() {
+            s = s + c * (pb - pa) / Dd::new(m as f64 + 1.0);
+            pa = pa * da;
+            pb = pb * db;
+        }
+        s
+    }
+    fn js(&self) -> Value {
+        json!({"c[i][j] of x^i y^j": self.c.iter().map(|r| jf(r)).collect::<Vec<Value>>()})
+    }
+}
+
+const RULE_NAMES: [&str; 3] = ["trapz", "romberg", "quad5"];
+
+/// outer interval, inner limits l0 and U(x) = u0 + u1·x
+fn nested_region(rng: &mut Rng, variable_limit: bool) -> (f64, f64, f64, f64, f64) {
+    let dyadic = rng.chance(0.4);
+    let g = |rng: &mut Rng, lo: f64, hi: f64| if dyadic { rng.int((lo * 8.0) as i64, (hi * 8.0) as i64) as f64 / 8.0 } else { rng.range(lo, hi) };
+    let a = g(rng, -3.0, 3.0);
+    let mut b = a + if dyadic { rng.int(1, 24) as f64 / 8.0 } else { rng.log_range(0.1, 3.0) };
+    let mut a = a;
+    if rng.chance(0.35) {
+        std::mem::swap(&mut a, &mut b);
+    }
+    let l0 = g(rng, -2.0, 2.0);
+    let wy = (if dyadic { rng.int(1, 16) as f64 / 8.0 } else { rng.log_range(0.1, 2.0) }) * if rng.chance(0.25) { -1.0 } else { 1.0 };
+    let u1 = if variable_limit { if dyadic { *rng.choose(&[1.0, -1.0, 0.5, 2.0, -0.25]) } else { rng.normal() * 0.7 } } else { 0.0 };
+    // x-dependent upper limit: l0 + wy at the middle of the outer interval
+    let u0 = if variable_limit && rng.bool() { l0 } else { l0 + wy - u1 * 0.5 * (a + b) };
+    (a, b, l0, u0, u1)
+}
+
+/// iterated integral of a bivariate polynomial, each rule inside its exactness class, against the exact value
+fn nested_exact(rng: &mut Rng, rep: &mut Report, combo: usize, kmax: usize) {
+    let (wo, wi) = (combo % 3, combo / 3 % 3);
+    let outer = nested_rule(rng, wo, true, kmax);
+    let inner = nested_rule(rng, wi, true, kmax);
+    let variable_limit = rng.chance(0.4);
+    let dy = rng.usize(0, inner.class_degree());
+    let dmax_o = outer.class_degree();
+    // the inner integral is a polynomial in x of degree dx (+ dy + 1 with an x-dependent limit)
+    let (dy, dx) = if variable_limit {
+        let dy = dy.min(dmax_o.saturating_sub(1));
+        (dy, rng.usize(0, dmax_o - (dy + 1).min(dmax_o)))
+    } else {
+        (dy, rng.usize(0, dmax_o))
+    };
+    let variable_limit = variable_limit && dy + 1 + dx <= dmax_o;
+    let p = BiPoly::random(rng, dx, dy);
+    let (a, b, l0, u0, u1) = nested_region(rng, variable_limit);
+    orient(rep, a, b);
+    let regime = format!("nested:{}({})", RULE_NAMES[wo], RULE_NAMES[wi]);
+    rep.case(&regime);
+    rep.seen(if variable_limit { "nested:inner-limit-depends-on-x" } else { "nested:rectangle" }, 1);
+    let dg = dx + if variable_limit { dy + 1 } else { 0 };
+    rep.distinct(Hasher::new().s("nest").u(outer.rule.tag()).u(inner.rule.tag()).f(a).f(b).f(l0).f(u0).f(u1).fs(&p.c[dx]).finish(), dg >= 1 || dy >= 1);
+    let integral = p.iterated_integral(a, b, l0, u0, u1);
+    let x = a.abs().max(b.abs());
+    let y = l0.abs().max(u0.abs() + u1.abs() * x);
+    let wy = (u0 + u1 * a - l0).abs().max((u0 + u1 * b - l0).abs());
+    let pabs = p.absval(x, y);
+    // inner quadrature: rounding bound of the rule on a degree-dy polynomial, plus the rounding of the limit U(x)
+    let tol_in = wy * pabs * (32.0 * gamma_n(inner.rule.evals() + 4) + 16.0 * (dy + dx + 1) as f64 * U) + 4.0 * U * y * pabs;
+    // outer quadrature: its own bound on g (Σ|coefficients| <= 2·Y·P(X,Y)) plus the inner errors (Σ|weights| <= 4|b−a|)
+    let tol = poly_tol(outer.rule, a, b, 2.0 * y * pabs, dg) + 4.0 * (b - a).abs() * tol_in;
+    let desc = json!({"p(x,y)": p.js(), "inner": {"rule": inner.js(), "from": l0, "to": format!("{} + {}*x", u0, u1)}, "form": "outer rule applied to g(x) = inner rule applied to y -> p(x, y)"});
+    let g = |t: f64| inner.call(&|s: f64| p.eval(t, s), l0, u0 + u1 * t);
+    let np = format!("C07.{}.no_panic", RULE_NAMES[wo]);
+    match guard(|| outer.call(&g, a, b)) {
+        Err(msg) => {
+            rep.check(&np, &regime, false, || ctx(outer.rule, desc.clone(), a, b, json!({"panic": msg})));
+        }
+        Ok(q) => {
+            rep.check(&np, &regime, true, || json!(null));
+            let err = (Dd::new(q) - integral).f().abs();
+            rep.note_max(&format!("worst_ratio.nested_exact.{}", RULE_NAMES[wo]), if err.is_nan() { f64::INFINITY } else { err / tol });
+            // either rule may be at fault: the assertion is named after the construction, the regime names both rules
+            rep.check("C07.iterated.poly_exact", &regime, err <= tol, || ctx(outer.rule, desc.clone(), a, b, json!({"observed": jnum(q), "expected": integral.f(), "abs_err": jnum(err), "tol": tol, "degree_of_g": dg})));
+        }
+    }
+    rep.sample(|| json!({"rule": outer.js(), "integrand": desc.clone(), "a": a, "b": b, "regime": regime, "integral": integral.f()}));
+}
+
+/// an integrand that calls another rule on the side (result discarded): the outer value must not notice
+fn nested_side_call(rng: &mut Rng, rep: &mut Report, combo: usize, kmax: usize) {
+    let (wo, wi) = (combo % 3, combo / 3 % 3);
+    let outer = nested_rule(rng, wo, true, kmax);
+    let inner = nested_rule(rng, wi, false, kmax);
+    let d = rng.usize(0, outer.class_degree());
+    let p = Poly::random(rng, d);
+    let q = Poly::random_deg(rng, 0, 6);
+    let (a, b, l0, u0, _) = nested_region(rng, false);
+    orient(rep, a, b);
+    let regime = format!("nested:{}(side-call:{})", RULE_NAMES[wo], RULE_NAMES[wi]);
+    rep.case(&regime);
+    rep.distinct(Hasher::new().s("side").u(outer.rule.tag()).u(inner.rule.tag()).f(a).f(b).fs(&p.c).finish(), d >= 1);
+    let side = Cell::new(0.0f64);
+    let f = |t: f64| {
+        side.set(side.get() + inner.call(&|s: f64| q.eval(s) + t, l0, u0));
+        p.eval(t)
+    };
+    let x = a.abs().max(b.abs());
+    let assertion = if wo == 0 { "C07.trapz.affine_exact".to_string() } else { format!("C07.{}.poly_exact", RULE_NAMES[wo]) };
+    let r = check_exact(rep, &assertion, &regime, outer.rule, &p, &f, p.absval(x), a, b, p.integral(a, b), true);
+    rep.note_max(&format!("worst_ratio.nested_side_call.{}", RULE_NAMES[wo]), r);
+    std::hint::black_box(side.get());
+}
+
+fn bivariate(idx: usize, x: f64, y: f64) -> f64 {
+    match idx {
+        0 => (-x * y).exp(),
+        1 => (x + y).sin(),
+        2 => 1.0 / (1.0 + x * x + y * y),
+        3 => x * y.cos() + y,
+        4 => (x - y).tanh(),
+        _ => x * x * x + y,
+    }
+}
+const BIVARIATE: [&str; 6] = ["exp(-x y)", "sin(x + y)", "1/(1 + x^2 + y^2)", "x cos y + y", "tanh(x - y)", "x^3 + y"];
+
+/// nested evaluation against its tabulated twin: the inner integrals g(x_i) recorded during the nested run are
+/// recomputed one after the other outside any other call, and the outer rule is applied once more to the table.
+/// Linear rules give Q(g) − Q(g_table) = Q(0) = 0 up to rounding. Any tolerance, any smooth integrand, depth 2 or 3.
+fn nested_twin(rng: &mut Rng, rep: &mut Report, combo: usize, kmax: usize) {
+    let (wo, wi) = (combo % 3, combo / 3 % 3);
+    let outer = nested_rule(rng, wo, false, kmax);
+    let inner = nested_rule(rng, wi, false, kmax);
+    let depth3 = rng.chance(0.2);
+    let w3 = rng.usize(0, 2);
+    let inner2 = nested_rule(rng, w3, false, kmax.min(4));
+    let variable_limit = rng.chance(0.4);
+    let (a, b, l0, u0, u1) = nested_region(rng, variable_limit);
+    let hid = rng.usize(0, BIVARIATE.len() - 1);
+    orient(rep, a, b);
+    let regime = format!("nested:{}({}):vs-tabulated", RULE_NAMES[wo], RULE_NAMES[wi]);
+    rep.case(&regime);
+    rep.seen(if depth3 { "nested:depth-3" } else { "nested:depth-2" }, 1);
+    if outer.eps > 0.0 || inner.eps > 0.0 {
+        rep.seen("nested:romberg-eps>0", 1);
+    }
+    rep.distinct(Hasher::new().s("twin").u(outer.rule.tag()).u(inner.rule.tag()).f(outer.eps).f(inner.eps).f(a).f(b).f(l0).f(u0).f(u1).u(hid as u64).u(depth3 as u64).finish(), true);
+    let hmax = Cell::new(0.0f64);
+    let h = |x: f64, y: f64| {
+        let v = if depth3 { inner2.call(&|z: f64| bivariate(hid, x, y + 0.5 * z), 0.0, 1.0) } else { bivariate(hid, x, y) };
+        if !(v.abs() <= hmax.get()) {
+            hmax.set(v.abs());
+        }
+        v
+    };
+    let g_direct = |x: f64| inner.call(&|y: f64| h(x, y), l0, u0 + u1 * x);
+    let desc = json!({"h(x,y)": BIVARIATE[hid], "depth": if depth3 { 3 } else { 2 }, "innermost": if depth3 { inner2.js() } else { json!(null) }, "inner": {"rule": inner.js(), "from": l0, "to": format!("{} + {}*x", u0, u1)}, "form": "outer rule applied to g(x) = inner rule applied to y -> h(x, y)"});
+    let np = format!("C07.{}.no_panic", RULE_NAMES[wo]);
+    // 1. nested
+    let log = std::cell::RefCell::new(Vec::<(f64, f64)>::new());
+    let nested = guard(|| {
+        outer.call(
+            &|x: f64| {
+                let v = g_direct(x);
+                log.borrow_mut().push((x, v));
+                v
+            },
+            a,
+            b,
+        )
+    });
+    let qn = match nested {
+        Err(msg) => {
+            rep.check(&np, &regime, false, || ctx(outer.rule, desc.clone(), a, b, json!({"panic": msg})));
+            return;
+        }
+        Ok(q) => q,
+    };
+    rep.check(&np, &regime, true, || json!(null));
+    let log = log.into_inner();
+    // 2. the same inner integrals, one after the other (the innermost level of depth 3 stays nested in the inner one)
+    let mut table: std::collections::HashMap<u64, f64> = std::collections::HashMap::new();
+    let mut gmax = 0.0f64;
+    let mut worst_inner = 0.0f64;
+    let mut at: Option<(f64, f64, f64)> = None;
+    for &(x, v) in &log {
+        let v2 = match guard(|| g_direct(x)) {
+            Ok(v2) => v2,
+            Err(msg) => {
+                rep.check(&format!("C07.{}.no_panic", RULE_NAMES[wi]), &regime, false, || ctx(inner.rule, desc.clone(), l0, u0 + u1 * x, json!({"panic": msg, "x": x})));
+                return;
+            }
+        };
+        gmax = gmax.max(v2.abs()).max(v.abs());
+        let d = (v - v2).abs();
+        if d > worst_inner || d.is_nan() {
+            worst_inner = if d.is_nan() { f64::INFINITY } else { d };
+            at = Some((x, v, v2));
+        }
+        table.insert(x.to_bits(), v2);
+    }
+    let wy = (u0 + u1 * a - l0).abs().max((u0 + u1 * b - l0).abs());
+    let tol_in = 64.0 * gamma_n(inner.rule.evals() + 4) * wy * hmax.get() + 1e-300;
+    rep.check(&format!("C07.{}.same_value_when_called_from_an_integrand", RULE_NAMES[wi]), &regime, worst_inner <= tol_in, || {
+        let (x, v, v2) = at.unwrap_or((f64::NAN, f64::NAN, f64::NAN));
+        ctx(inner.rule, desc.clone(), l0, u0 + u1 * x, json!({"x": x, "value_inside_outer_call": jnum(v), "value_on_its_own": jnum(v2), "tol": tol_in}))
+    });
+    // 3. outer rule on the table
+    let miss = Cell::new(false);
+    let tabulated = guard(|| {
+        outer.call(
+            &|x: f64| match table.get(&x.to_bits()) {
+                Some(v) => *v,
+                None => {
+                    miss.set(true);
+                    f64::NAN
+                }
+            },
+            a,
+            b,
+        )
+    });
+    let qt = match tabulated {
+        Err(msg) => {
+            rep.check(&np, &regime, false, || ctx(outer.rule, desc.clone(), a, b, json!({"panic": msg, "integrand": "table of the values returned during the nested run"})));
+            return;
+        }
+        Ok(q) => q,
+    };
+    if miss.get() {
+        // the rule asked for an abscissa it had not asked for with the same values before
+        rep.check(&format!("C07.{}.nested_equals_tabulated", RULE_NAMES[wo]), &regime, false, || ctx(outer.rule, desc.clone(), a, b, json!({"reason": "the rule evaluated the tabulated twin at an abscissa it did not use in the nested run although all values agree", "nested": jnum(qn)})));
+        return;
+    }
+    let tol = 64.0 * gamma_n(outer.rule.evals() + 4) * (b - a).abs() * gmax + 8.0 * (b - a).abs() * worst_inner + 1e-300;
+    let err = (qn - qt).abs();
+    rep.note_max(&format!("worst_ratio.nested_vs_tabulated.{}", RULE_NAMES[wo]), if err.is_nan() && !(qn.is_nan() && qt.is_nan()) { f64::INFINITY } else if err.is_nan() { 0.0 } else { err / tol });
+    rep.check(&format!("C07.{}.nested_equals_tabulated", RULE_NAMES[wo]), &regime, err <= tol || (qn.is_nan() && qt.is_nan()), || {
+        ctx(outer.rule, desc.clone(), a, b, json!({"nested": jnum(qn), "tabulated": jnum(qt), "abs_diff": jnum(err), "tol": tol, "outer_evaluations": log.len()}))
+    });
+}
+
 pub fn run(cfg: &Cfg, rep: &mut Report) {
-    rep.rule = "rule x integrand x interval evaluations. intervals: end points in +-1e3 (wide, unit-scale, symmetric, narrow-far-from-0, dyadic, [0,c]), 40% with a > b, a = b separately; trapz panels 1..4096; romberg(eps=0) level budgets 2..12 on monomials/random polynomials up to degree 2k-1 (<= 23) and 13..20 on degree <= 3; quad5 degrees 0..9 (10..19 recorded, not asserted); linearity and antisymmetry per rule; 22 smooth integrands for the trapezoid error bound and romberg with eps in 1e-3..1e-12, budgets 2..20; sampled trapezoid lengths 2..1e4 with uniform x, non-uniform x (spacing ratios to 1e6), dx, default dx; narrow intervals |b-a| = |a|*2^-j (j = 10..50, |a| to 1e3, both orders) for all three rules with romberg(eps=0) budgets 2..20 on monomials to degree min(2k-1,19) / random polynomials to degree 12; node-aliasing polynomials C + s*r*prod(x - node_i) over the 2, 3, 5, 9, 17 coarsest equispaced nodes of dyadic intervals for romberg(eps=0, smallest sufficient budget .. 20) and quad5. one evaluation = one relation checked (1-3 library calls). non-trivial = non-constant integrand, a != b (samples: length >= 3); distinct by (rule, parameters, limits, integrand)".into();
+    rep.rule = "rule x integrand x interval evaluations. intervals: end points in +-1e3 (wide, unit-scale, symmetric, narrow-far-from-0, dyadic, [0,c]), 40% with a > b, a = b separately; trapz panels 1..4096; romberg(eps=0) level budgets 2..12 on monomials/random polynomials up to degree 2k-1 (<= 23) and 13..20 on degree <= 3; quad5 degrees 0..9 (10..19 recorded, not asserted); linearity and antisymmetry per rule; 22 smooth integrands for the trapezoid error bound and romberg with eps in 1e-3..1e-12, budgets 2..20; sampled trapezoid lengths 2..1e4 with uniform x, non-uniform x (spacing ratios to 1e6), dx, default dx; narrow intervals |b-a| = |a|*2^-j (j = 10..50, |a| to 1e3, both orders) for all three rules with romberg(eps=0) budgets 2..20 on monomials to degree min(2k-1,19) / random polynomials to degree 12; node-aliasing polynomials C + s*r*prod(x - node_i) over the 2, 3, 5, 9, 17 coarsest equispaced nodes of dyadic intervals for romberg(eps=0, smallest sufficient budget .. 20) and quad5. periodic integrands (sin^2, cos^2, products sin/cos(m.)·sin/cos(n.), shifted cosines, random trigonometric polynomials; periods 2pi, 1, 2, random) over 1..4 half periods from 0, symmetric about 0 or from any phase with romberg eps 1e-3..1e-12, budgets 8..14; catalogue entries with symmetric domain over exactly symmetric intervals; re-entrancy: all 9 (outer rule)(inner rule) pairs on iterated integrals of bivariate polynomials inside both exactness classes (rectangles and x-dependent inner limit) against the exact value, on smooth bivariate integrands (depth 2 and 3, romberg eps 0..1e-3) against the tabulated twin, and integrands that call another rule on the side. one evaluation = one relation checked (1-3 library calls). non-trivial = non-constant integrand, a != b (samples: length >= 3); distinct by (rule, parameters, limits, integrand)".into();
     rep.assume("integrands are finite on the interval; smooth catalogue entries are used inside their natural domain only (exp on +-10, 1/x on [0.1,1e3], ...)");
     rep.assume("romberg linearity / antisymmetry / polynomial exactness are judged at eps = 0 (fixed tableau); with eps > 0 the stopping level depends on the integrand");
     rep.assume("romberg tolerance-order bound is asserted only when the exact-arithmetic method (reference tableau in double-double) converges within the level budget and its stopping criterion is not fooled (every level at which it could stop is within 10*eps*max(1,|I|)); other cases are counted under romberg:smooth:undecided(...) / criterion-fooled");
     rep.assume("narrow intervals: |b-a| = |a|*2^-j, j = 10..50, |a| in 1e-2..1e3, both orders; same exactness tolerance as everywhere (|b-a|*P(X)*(32 gamma_{N+4} + 16(d+1)u)); the reference integral is evaluated in the shifted variable t = x - a (Taylor shift in double-double) so that it does not cancel");
     rep.assume("node-aliasing integrands C + s*r(u)*prod(u - node_i) on dyadic intervals (all abscissae exact): tolerance |b-a|*((|C| + sup|s r prod|)*(32 gamma_{N+4} + 16(d+2)u)) (+ the effect of quad5's rounded abscissae, 8u*X*d^2*sup/|h|); sup sampled at 32 points per node spacing, +50%; romberg at eps = 0 with budgets from the smallest k with 2k-1 >= degree up to 20");
+    rep.assume("iterated integrals: an integrand may itself be computed with trapz / romberg / quad5 (the crate has no 2-D rule); tolerance = the rule's own polynomial bound on g(x) = inner integral, with P = 2Y*P(X,Y), plus 4|b-a| times the inner rule's bound; nested versus tabulated twin: 64 gamma_{N+4} |b-a| max|g| (linearity applied to the zero difference)");
+    rep.assume("periodic family: reference = closed antiderivative at the (rounded) limits with allowance 16u*sum|terms| + 64u|b-a|; judged like the smooth catalogue (asserted only where the reference tableau converges genuinely within the budget)");
     rep.assume("quad5 is required to be exact to degree 9 only; degrees 10..19 are recorded (info.*) but not asserted");
     rep.assume("max|f''| is an upper bound evaluated from the closed form at the end points and interior stationary points");
     let cat = catalogue();
@@ -1137,6 +1630,10 @@ pub fn run(cfg: &Cfg, rep: &mut Report) {
     let n_samp = cfg.pick(600, 10000, 8);
     let n_narrow = cfg.pick(300, 5000, 4); // per rule
     let n_alias = cfg.pick(500, 8000, 5);
+    let n_periodic = cfg.pick(400, 6000, 3);
+    let n_symm = cfg.pick(150, 2500, 2);
+    let n_nested = cfg.pick(900, 13500, 9); // 9 outer × inner combinations in turn
+    let kmax_nested = if cfg.miri() { 3 } else { 9 };
     let max_levels = if cfg.miri() { 8 } else { 20 };
     let maxlen = if cfg.miri() { 40 } else { 10_000 };
     par_cases(cfg, rep, 1, n_trapz, |_i, rng, rep| exact_trapz(rng, rep));
@@ -1173,6 +1670,13 @@ pub fn run(cfg: &Cfg, rep: &mut Report) {
             }
         });
     }
+    // periodic integrands over whole / half periods and symmetric intervals, eps > 0
+    par_cases(cfg, rep, 15, n_periodic, |_i, rng, rep| periodic_romberg(rng, rep, max_levels));
+    par_cases(cfg, rep, 16, n_symm, |_i, rng, rep| symmetric_romberg(rng, rep, cat, max_levels));
+    // re-entrancy: each rule inside an integrand of each rule
+    par_cases(cfg, rep, 17, n_nested, |i, rng, rep| nested_exact(rng, rep, i % 9, kmax_nested));
+    par_cases(cfg, rep, 18, n_nested, |i, rng, rep| nested_twin(rng, rep, i % 9, kmax_nested));
+    par_cases(cfg, rep, 19, n_nested / 3, |i, rng, rep| nested_side_call(rng, rep, i % 9, kmax_nested));
     // the DESIGN probe, literally: trapz(1, 0, 1, 4) and trapz(x, 0, 1, 4)
     par_cases(cfg, rep, 11, 1, |_i, _rng, rep| {
         let one = Poly::monomial(0);
@@ -1205,6 +1709,20 @@ pub fn run(cfg: &Cfg, rep: &mut Report) {
     if !cfg.miri() {
         rep.require("romberg:narrow(w=|a|*2^-10..-50):k=2..11", 1);
         rep.require("romberg:narrow(w=|a|*2^-10..-50):k=12..20", 1);
+    }
+    for o in RULE_NAMES {
+        for i in RULE_NAMES {
+            rep.require(&format!("nested:{}({})", o, i), 1);
+            rep.require(&format!("nested:{}({}):vs-tabulated", o, i), 1);
+            if !cfg.miri() {
+                rep.require(&format!("nested:{}(side-call:{})", o, i), 1);
+            }
+        }
+    }
+    if !cfg.lite {
+        for r in ["romberg:periodic:whole-periods:budget-suffices", "romberg:periodic:half-periods:budget-suffices", "romberg:periodic:two-coarsest-estimates-agree-and-are-wrong", "romberg:symmetric-interval:budget-suffices", "nested:inner-limit-depends-on-x", "nested:rectangle", "nested:depth-3", "nested:depth-2", "nested:romberg-eps>0"] {
+            rep.require(r, 1);
+        }
     }
     if !cfg.lite {
         for r in ["narrow:j=10..29", "narrow:j=30..41", "narrow:j=42..50", "romberg:narrow:abscissae-coincide", "quad5:node-aliasing", "alias:integral-differs-from-C(b-a)"] {
